@@ -75,6 +75,9 @@ def run(tier, seed, t0):
         fl = "asanassert" if thr == 1 else "asan"
         R.run_inv(Inv("simrun", n, fl, args=["--max_iterations=%d" % T(tier, 150, 400), "--min_iterations=50"], threads=thr, first=(0 if thr == 1 else n_sim),
                       timeout=T(tier, 1500, 4 * 3600), tag="simrun/%s/t%d" % (fl, thr)), seed, wd, m)
+    # 4 solver threads in a process whose OpenMP default is 1 thread (whatever a member sizes from the default at construction is too small afterwards)
+    R.run_inv(Inv("simrun", T(tier, 12, 300), "asan", args=["--max_iterations=%d" % T(tier, 100, 300), "--min_iterations=40", "--omp_default=1"], threads=4, first=3 * n_sim,
+                  timeout=T(tier, 1500, 4 * 3600), tag="simrun/asan/t4_default1"), seed, wd, m)
     # ---- (d) remeshing histories with libstdc++ assertions ------------------------------------------------
     R.run_inv(Inv("remesh", T(tier, 32, 800), "asanassert", args=["--oracle=c11", "--max_faces=200", "--max_passes=8"], first=2000000, timeout=T(tier, 1500, 4 * 3600)), seed, wd, m)
     # ---- (a) the real executable under ASan+UBSan ---------------------------------------------------------
